@@ -1,15 +1,275 @@
 /-
-  HotXL.Model.Fn.Lookup — builtin functions of this family (filled in as the family is modelled).
-  `table` maps a registered function name to its model; a registered name with no entry
-  here is reported by the evaluator as `Value.other "unmodelled-builtin"`.
+  HotXL.Model.Fn.Lookup — model of hotxlfp/formulas/lookupandreference.py
+  (CHOOSE, MATCH, INDEX), with the Python semantics the code relies on:
+
+  * `a < b` / `a > b` between Python objects (`pyLtValue`; `none` = TypeError), `a == b`
+    (`Fn.pyEqValue`);
+  * subscripting `v[i]` (`pySubscript`) of lists AND of text (a Python `str` is subscriptable and
+    gives a one-character string), with Python's negative indices counting from the end,
+    IndexError / TypeError = `none`;
+  * `fnmatch.fnmatch(item.lower(), pattern.lower())` (`globMatch` on `lowerAscii`): `*`, `?` and
+    literal characters.  Patterns containing `[` (fnmatch's character classes) are NOT modelled:
+    the model then answers `Value.other "unmodelled-fnmatch-class"` (no opinion).
+    `str.lower` is modelled on ASCII letters only.
+  * a host object (`Value.other`) is taken to be a plain `object()`: unordered, not subscriptable.
 -/
 import HotXL.Model.Fn.Common
 
 namespace HotXL.Fn.Lookup
-open HotXL
+open HotXL HotXL.Ops
 
 open HotXL.Fn
 
-def table : List (String × Builtin) := []
+/-! ### Python `<` on the modelled values -/
+
+mutual
+/-- Python `a < b`; `none` = TypeError ("'<' not supported between instances of …").
+    Numbers (int, float, bool) compare by value, text by code points, lists lexicographically,
+    datetimes by instant; everything else (None, error objects, mixed kinds) raises. -/
+def pyLtValue : Value → Value → Option Bool
+  | .str a, .str b => some (strLt a b)
+  | .date a, .date b => some (decide (a < b))
+  | .arr a, .arr b => pyLtList a b
+  | a, b => match pyNumeric? a, pyNumeric? b with
+    | some x, some y => some (decide (x < y))
+    | _, _ => none
+/-- `list.__lt__`: the first pair of unequal items decides, else the shorter list is smaller -/
+def pyLtList : List Value → List Value → Option Bool
+  | [], [] => some false
+  | [], _ :: _ => some true
+  | _ :: _, [] => some false
+  | x :: xs, y :: ys => if pyEqValue x y then pyLtList xs ys else pyLtValue x y
+end
+
+/-- Python `a > b` (the reflected `<` for every modelled class) -/
+def pyGtValue (a b : Value) : Option Bool := pyLtValue b a
+
+/-! ### Python subscripting -/
+
+/-- `xs[i]` on a Python sequence: a negative index counts from the end; `none` = IndexError -/
+def pyListGet {α : Type} (xs : List α) (i : Int) : Option α :=
+  if 0 ≤ i then xs[i.toNat]?
+  else if 0 ≤ (xs.length : Int) + i then xs[((xs.length : Int) + i).toNat]?
+  else none
+
+/-- `v[n]`: lists and text are subscriptable by an int (text gives a one-character string);
+    `none` = IndexError or TypeError (float index, or a value that is not subscriptable) -/
+def pySubscript (v : Value) (n : Num) : Option Value :=
+  match n with
+  | .flt _ => none
+  | .int i =>
+    match v with
+    | .arr xs => pyListGet xs i
+    | .str s => (pyListGet s i).map (fun c => .str [c])
+    | _ => none
+
+/-- `[row[n] for row in arr]`; `none` = one of the subscriptions raised -/
+def subscriptAll (n : Num) : List Value → Option (List Value)
+  | [] => some []
+  | r :: rs =>
+    match pySubscript r n, subscriptAll n rs with
+    | some v, some vs => some (v :: vs)
+    | _, _ => none
+
+/-! ### CHOOSE -/
+
+/-- CHOOSE(*args).  `index < 1` raises TypeError for anything that is not a number (text is NOT
+    coerced); a float index passes the range tests and then fails as a list index. -/
+def CHOOSE : Builtin := fun args =>
+  if args.length < 2 then .ok (.err .na) else
+  match args with
+  | [] => .ok (.err .na)
+  | idx :: _ =>
+    match asNumber? idx with
+    | none => .error .error
+    | some n =>
+      if Num.toRat n < 1 ∨ Num.toRat n > 254 then .ok (.err .value)
+      else if ((args.length : Int) : Rat) < Num.toRat n + 1 then .ok (.err .value)
+      else match n with
+        | .int i => (match pyListGet args i with
+            | some v => .ok v
+            | none => .error .error)
+        | .flt _ => .error .error
+
+/-! ### INDEX -/
+
+/-- `row_num` / `column_num` after `None → DEFAULT` and `utils.parse_number`:
+    `.ok none` = DEFAULT (omitted or blank), `.error e` = the error value INDEX returns -/
+def indexArg : Value → Except Err (Option Num)
+  | .blank => .ok none
+  | v => match parseNumber v with
+    | .ok n => .ok (some n)
+    | .error e => .error e
+
+/-- `x if no exception else #REF!` -/
+def refOr (o : Option Value) : Value := o.getD (.err .ref)
+
+/-- `n - 1` -/
+def pred1 (n : Num) : Num := numSub n (.int 1)
+
+/-- the `try:` block of INDEX (`arr` is a list; `none` = DEFAULT) -/
+def indexCore (arr : List Value) (bidim : Bool) : Option Num → Option Num → Value
+  | none, none => .err .value          -- excluded before the block is reached
+  | none, some c =>
+    if Num.isZero c then .arr arr
+    else if bidim then refOr ((subscriptAll (pred1 c) arr).map .arr)
+    else refOr (pySubscript (.arr arr) (pred1 c))
+  | some r, none =>
+    if Num.isZero r then .arr arr
+    else refOr (pySubscript (.arr arr) (pred1 r))
+  | some r, some c =>
+    if Num.isZero r && Num.isZero c then .arr arr
+    else if Num.isZero r then
+      if !bidim then .err .ref        -- the elements are not rows
+      else refOr ((subscriptAll (pred1 c) arr).map .arr)
+    else if Num.isZero c then refOr (pySubscript (.arr arr) (pred1 r))
+    else if !bidim then
+      if Num.toRat c = 1 then refOr (pySubscript (.arr arr) (pred1 r))
+      else .err .ref                  -- the elements are not rows
+    else refOr ((pySubscript (.arr arr) (pred1 r)).bind (fun row => pySubscript row (pred1 c)))
+
+def isArr : Value → Bool
+  | .arr _ => true
+  | _ => false
+
+def numNegative : Option Num → Bool
+  | some n => decide (Num.toRat n < 0)
+  | none => false
+
+/-- INDEX(arr, row_num, column_num) on evaluated arguments (blank = omitted) -/
+def index3 (a r c : Value) : Except Err Value :=
+  match a with
+  | .blank => .ok (.err .value)
+  | _ =>
+    match r, c with
+    | .blank, .blank => .ok (.err .value)
+    | _, _ =>
+      let arr : List Value := match a with
+        | .arr xs => xs
+        | v => [.arr [v]]
+      match arr with
+      | [] => .error .error            -- `arr[0]`: IndexError outside the try
+      | first :: _ =>
+        match indexArg r with
+        | .error e => .ok (.err e)
+        | .ok row =>
+          match indexArg c with
+          | .error e => .ok (.err e)
+          | .ok col =>
+            if numNegative row || numNegative col then .ok (.err .value)
+            else .ok (indexCore arr (isArr first) row col)
+
+/-- INDEX(arr, row_num=DEFAULT, column_num=DEFAULT, area_num=DEFAULT); `area_num` is ignored -/
+def INDEX : Builtin
+  | [a] => index3 a .blank .blank
+  | [a, r] => index3 a r .blank
+  | [a, r, c] => index3 a r c
+  | [a, r, c, _] => index3 a r c
+  | _ => .error .error
+
+/-! ### MATCH -/
+
+/-- `str.lower()` on ASCII letters -/
+def lowerChar (c : Char) : Char :=
+  if 'A'.toNat ≤ c.toNat ∧ c.toNat ≤ 'Z'.toNat then Char.ofNat (c.toNat + 32) else c
+
+def lowerAscii (s : List Char) : List Char := s.map lowerChar
+
+/-- does `f` hold of some suffix of the text (the candidates for what follows a `*`)? -/
+def anySuffix (f : List Char → Bool) : List Char → Bool
+  | [] => f []
+  | d :: s => f (d :: s) || anySuffix f s
+
+/-- `fnmatch.fnmatchcase(text, pattern)` for patterns made of `*` (any sequence of characters,
+    possibly empty), `?` (any one character) and literal characters.  Arguments: pattern, text. -/
+def globMatch : List Char → List Char → Bool
+  | [], s => s.isEmpty
+  | c :: p, s =>
+    if c = '*' then anySuffix (globMatch p) s
+    else match s with
+      | [] => false
+      | d :: s' => (c = '?' || c = d) && globMatch p s'
+
+/-- does the item at hand "equal" the lookup value at match type 0?  `none` = AttributeError
+    (`item.lower()` on something that is not text) -/
+def itemMatches (x item : Value) : Option Bool :=
+  match x with
+  | .str p =>
+    (match item with
+     | .str s => some (globMatch (lowerAscii p) (lowerAscii s))
+     | _ => none)
+  | _ => some (pyEqValue item x)
+
+/-- 1-based position as a Python int -/
+def posValue (idx : Nat) : Value := .num (.int ((idx + 1 : Nat) : Int))
+
+/-- the loop at match type 0; `idx` = number of items already passed -/
+def scanExact (x : Value) : List Value → Nat → Except Err Value
+  | [], _ => .ok (.err .na)
+  | item :: rest, idx =>
+    match itemMatches x item with
+    | none => .error .error
+    | some true => .ok (posValue idx)
+    | some false => scanExact x rest (idx + 1)
+
+/-- `a < b` at type 1, `a > b` at type −1 -/
+def before (asc : Bool) (a b : Value) : Option Bool := if asc then pyLtValue a b else pyGtValue a b
+
+/-- the loop at match type 1 (`asc = true`) / −1 (`asc = false`): `best` = (`index`, `index_value`);
+    `not index_value` is Python falsiness of the candidate's VALUE (a candidate 0 or "" counts as
+    "none yet") -/
+def scanBest (asc : Bool) (x : Value) : List Value → Nat → Option (Nat × Value) → Except Err Value
+  | [], _, best => .ok (match best with
+      | some (i, _) => .num (.int (i : Int))
+      | none => .err .na)
+  | item :: rest, idx, best =>
+    if pyEqValue item x then .ok (posValue idx)
+    else match before asc item x with
+      | none => .error .error
+      | some false => scanBest asc x rest (idx + 1) best
+      | some true =>
+        match best with
+        | none => scanBest asc x rest (idx + 1) (some (idx + 1, item))
+        | some (bi, bv) =>
+          if !pyTruthy bv then scanBest asc x rest (idx + 1) (some (idx + 1, item))
+          else match before asc bv item with      -- `item > index_value` / `item < index_value`
+            | none => .error .error
+            | some true => scanBest asc x rest (idx + 1) (some (idx + 1, item))
+            | some false => scanBest asc x rest (idx + 1) (some (bi, bv))
+
+inductive MatchType where
+  | asc | exact | desc
+  deriving DecidableEq, Repr
+
+/-- `match_type not in (-1, 0, 1)` (by `==`: 1.0 and TRUE count as 1, FALSE as 0) -/
+def matchType? (t : Value) : Option MatchType :=
+  match pyNumeric? t with
+  | some q => if q = 1 then some .asc else if q = 0 then some .exact else if q = -1 then some .desc else none
+  | none => none
+
+def hasBracket : Value → Bool
+  | .str p => p.contains '['
+  | _ => false
+
+/-- MATCH(lookup_value, lookup_array, match_type) -/
+def match3 (x a t : Value) : Except Err Value :=
+  if !pyTruthy x && !pyTruthy a then .ok (.err .na) else
+  match a with
+  | .arr xs =>
+    (match matchType? t with
+     | none => .ok (.err .na)
+     | some .asc => scanBest true x xs 0 none
+     | some .exact =>
+       if hasBracket x then .ok (.other "unmodelled-fnmatch-class") else scanExact x xs 0
+     | some .desc => scanBest false x xs 0 none)
+  | _ => .ok (.err .na)
+
+/-- MATCH(lookup_value, lookup_array, match_type=1) -/
+def MATCH : Builtin
+  | [x, a] => match3 x a (.num (.int 1))
+  | [x, a, t] => match3 x a t
+  | _ => .error .error
+
+def table : List (String × Builtin) := [("CHOOSE", CHOOSE), ("MATCH", MATCH), ("INDEX", INDEX)]
 
 end HotXL.Fn.Lookup
